@@ -349,7 +349,8 @@ prop("C01", [_lazy("infer", "rule_opt"), _lazy("infer", "rule_opt2"), _lazy("inf
              _lazy("emit", "rule_inj5"),
              _lazy("naming", "rule_uniq2"),
              _lazy("emit", "rule_inj3"),
-             _lazy("misc", "rule_cacheinv1")],
+             _lazy("misc", "rule_cacheinv1"),
+             _lazy("perm", "rule_perm1")],
      "Static decision of the optionality / completeness clauses of C01: on every feasible path of the per-field merge "
      "loop (path enumeration with the equality axioms of EQ-1/NF-3) the value left in the merged set is optional "
      "whenever the stored or the incoming side was optional or the field is new in a later set, and the stored type "
@@ -368,7 +369,8 @@ prop("C02", [_lazy("infer", "rule_opt"), _lazy("infer", "rule_nulldet"), _lazy("
              _lazy("emit", "rule_sib1"),
              _lazy("misc2", "rule_encerr1"),
              _lazy("misc2", "rule_date1"),
-             _lazy("misc2", "rule_load5")],
+             _lazy("misc2", "rule_load5"),
+             _lazy("perm", "rule_perm1")],
      "Static decision of: Optional is introduced in the merge only when justified (converse direction of the OPT "
      "table, OPT-4); Null is produced only under `value is None` and Unknown only under the emptiness test of the "
      "matching container (NULLDET-1); candidates are removed from a union only as documented (Unknown when another "
@@ -385,7 +387,8 @@ prop("C07", [_lazy("infer", "rule_opt"), _lazy("infer", "rule_eq1"), _lazy("emit
              _lazy("naming", "rule_uniq5"),
              _lazy("infer", "rule_opt2"),
              _lazy("misc2", "rule_dsu1"),
-             _lazy("misc2", "rule_eqcyc1")],
+             _lazy("misc2", "rule_eqcyc1"),
+             _lazy("perm", "rule_perm1")],
      "Static decision of: the merge outcome's optionality is the same for mirrored inputs and the stored side is kept "
      "only on equality (OPT-5 on the OPT path table); equality of IR types is type-exact and order-insensitive "
      "(ComplexType compares the sorted MEMBER lists, StringLiteral compares sets) and caches are invalidated on "
